@@ -3,7 +3,7 @@ import refs_cases
 
 ID = "C05"
 PROPERTIES_FILE = "Properties/C05.v"
-COQ_TARGETS = ["Properties/C05.vo", "Refs/Cases.vo", "Refs/RefProofs.vo", "Refs/RefStep.vo", "Refs/LifeProofs.vo", "Refs/LifeStep.vo", "Refs/ErrPaths.vo", "Refs/FenceProofs.vo"]
+COQ_TARGETS = ["Properties/C05.vo", "Refs/Cases.vo", "Refs/RefProofs.vo", "Refs/RefStep.vo", "Refs/LifeProofs.vo", "Refs/LifeStep.vo", "Refs/ErrPaths.vo", "Refs/Disconnect.vo", "Refs/FenceProofs.vo"]
 LEVEL = "proof"
 TECHNIQUE = ("Coq theorems (all backends, all states) over a hand-written sequential Gallina model of fidRef reference counting, the DecRef "
              "cascade, the fid tables and connState.stop; model tied to the code by a differential against the real Server.Handle driven "
@@ -11,18 +11,20 @@ TECHNIQUE = ("Coq theorems (all backends, all states) over a hand-written sequen
 LEVEL_TEXT = ("Proved in Coq by induction over ALL request histories from the initial state, for EVERY backend (every success/failure choice "
               "of every backend call): C05_inv (refs = #fid-table entries + #transient holders + #live children + #live xattr borrowers; the DecRef "
               "cascade never runs out of fuel - no acyclicity needed), File ownership (every returned handle owned by exactly one fidRef, xattr fidRefs "
-              "borrow), C05_closed_once, C05_closed_iff_unreferenced, C05_error_paths for Twalk/Twalkgetattr (every failing component, every reason), "
-              "C05_no_use_after_close for every File method except Renamed (partial), C05_disconnect under an explicit ordering hypothesis on parent "
-              "links (partial: assumption B2 is not discharged). Every run re-checks the proofs, replays generated histories on the real server "
-              "(failure injected at every backend-call index of the corpus, connection cut after every byte of short sessions, fid replacement, xattr "
-              "fids, create-rebinding) plus three gated concurrent scenarios (rename while a child's last DecRef is parked in Close; rename whose "
-              "Renamed callback overlaps a disconnect; see C08 for unlink vs walk), evaluates the lifecycle predicate on the observed backend call "
-              "log, Handle's return and the goroutine count, and compares replies, call logs and the path tree with the model.")
-LEVEL_NOTE = ("Sequential model: requests are handled one at a time (in-flight interleavings are the subject of C06/C07/C16; three specific interleavings "
-              "are exercised by gated scenarios and judged on the observed log only). Partial in Coq: Renamed notifications are outside "
-              "C05_no_use_after_close (needs the tree invariant); C05_disconnect assumes parent ids smaller than child ids for live fidRefs (true "
-              "without renames; B2 + tree invariant needed in general); C05_error_paths for Tattach is not written out. Handle returning / no "
-              "goroutine left are observed on the real code only. The model is tied to the Go code by the differential only.")
+              "borrow), C05_closed_once, C05_closed_iff_unreferenced, C05_no_use_after_close for every File method incl. Renamed, C05_error_paths "
+              "for Twalk/Twalkgetattr and for Tattach (every failing component, every reason: each File handed out during the failing request is "
+              "closed exactly once when it is answered), C05_stop_empties_table, and C05_disconnect: after the stop of every connection holding a "
+              "fid no fid is bound and every File ever returned is closed exactly once - under the hypothesis [ranked] (parent links of live fidRefs "
+              "well founded; NOT discharged, it is false for backends violating B2). Every run re-checks the proofs, replays generated histories on "
+              "the real server (failure injected at every backend-call index of the corpus, connection cut after every byte of short sessions, fid "
+              "replacement, xattr fids, create-rebinding) plus gated concurrent scenarios (rename while a child's last DecRef is parked in Close; "
+              "rename whose Renamed callback overlaps a disconnect; see C08 for unlink vs walk), evaluates the lifecycle predicate on the observed "
+              "backend call log, Handle's return and the goroutine count, and compares replies, call logs and the path tree with the model.")
+LEVEL_NOTE = ("Sequential model: requests are handled one at a time (in-flight interleavings are the subject of C06/C07/C16; specific interleavings "
+              "are exercised by gated scenarios and judged on the observed log only). Partial in Coq: C05_disconnect keeps the hypothesis [ranked] "
+              "(implied by parent id < child id, true without renames; in general it needs B2, tree_inv (proved), tree_closed and 'detached nodes "
+              "stay detached' (not proved) - see coq/Refs/HANDOVER.md); the Go branch !valid.Mode of Tattach is covered as the GetAttr-error exit "
+              "only. Handle returning / no goroutine left are observed on the real code only. The model is tied to the Go code by the differential only.")
 DESIGN_REF = "6/C05"
 ASSUMPTIONS = [
     "requests of all connections are processed one at a time (sequential model); Go map iteration order only permutes Renamed/Close runs",
